@@ -87,6 +87,9 @@ class Reporter:
         coverage.setdefault("components_stub", STUB_COMPONENTS)
         if wall > 0 and coverage.get("evaluations"):
             coverage["runs_per_hour"] = int(coverage["evaluations"] / wall * 3600)
+            # every simulated run has its own PRNG streams derived from (VERIF_SEED, property, run index, label)
+            coverage["derived_run_seeds_per_hour"] = coverage["runs_per_hour"]
+        coverage.setdefault("root_seed_env", "VERIF_SEED")
         coverage["known_findings_seen"] = sorted(self.known_seen)
         ev = {
             "property_id": self.prop_id, "tier": self.tier, "seed": self.seed, "level": self.level,
